@@ -505,7 +505,23 @@ def _enum20():
     return __import__("nauyaca.protocol.status", fromlist=["StatusCode"]).StatusCode.SUCCESS
 
 
+class _NoStr:
+    """an object whose own text conversion fails (a lazy template that cannot be rendered, a proxy whose target is gone)"""
+
+    def __str__(self):
+        raise RuntimeError("cannot be rendered")
+
+
+class _NoBool(list):
+    def __bool__(self):
+        raise ValueError("truth value is ambiguous")
+
+
 ODD = {
+    "meta=str-raises": lambda: (20, _NoStr(), "ok\n"),
+    "meta=str-raises,51": lambda: (51, _NoStr(), None),
+    "body=str-raises": lambda: (20, "text/gemini", _NoStr()),
+    "body=bool-raises": lambda: (20, "text/gemini", _NoBool(["a"])),
     "meta=list": lambda: (20, ["text/gemini", "charset=utf-8"], "ok\n"),
     "meta=dict": lambda: (20, {"mime": "text/gemini"}, "ok\n"),
     "meta=set": lambda: (20, {"text/gemini"}, "ok\n"),
